@@ -1118,6 +1118,7 @@ def shard_for(n, jobs=8, lo=1):
     return max(lo, -(-n // jobs))
 
 BOUNDS = {
+    "history (coordinates off the 1/64 nm grid: float32 kernels are inexact)": "drid 5e-6 rel, dipole 1e-5 abs",
     "centre_abs_nm": "1e-11", "gyration_abs_nm2": "1e-10", "principal_moment_coefficients_rel": "1e-9",
     "shape_descriptor_rel": "1e-9", "rg2_abs_nm2 (float32 kernel)": "2e-5", "density_rel (float32 cell volume)": "2e-6",
     "rdf_mixed (float32 cell volume)": "1e-5", "softmin_rel (float32)": "2e-5", "drid_rel": "1e-9",
@@ -1477,7 +1478,7 @@ def check_drid(ctx, cases, results):
                 e1 = abs(float(got[1]) ** 2 - m2) / scale ** 2
                 e2 = abs(float(got[2]) ** 3 - m3) / scale ** 3
                 e = max(e0, e1, e2)
-                if e > 1e-9 and (worst is None or e > worst[0]):
+                if e > (1e-9 if c["unit"] == UNIT else 5e-6) and (worst is None or e > worst[0]):
                     worst = (e, fi, j, [float(g) for g in got], [mu, math.sqrt(m2), cbrt(m3)])
         if worst:
             ctx.fail("compute_drid: moments differ from mean / sqrt(2nd central) / cbrt(3rd central) of the reciprocal "
@@ -1589,9 +1590,10 @@ def check_dipole(ctx, cases, results):
         for fi, f in enumerate(c["xyz"]):
             want = [sum(q[a] * Fraction(f[a][k] - f[0][k], c["unit"]) for a in range(len(f))) for k in range(3)]
             got = [Fraction(*v[fi][k]) for k in range(3)]
-            if all(abs(g - w) <= Fraction(1, 10 ** 9) for g, w in zip(got, want)):
+            tol = Fraction(1, 10 ** 9) if c["unit"] == UNIT else Fraction(1, 10 ** 5)   # float32 displacements off the grid
+            if all(abs(g - w) <= tol for g, w in zip(got, want)):
                 continue
-            neg = all(abs(g + w) <= Fraction(1, 10 ** 9) for g, w in zip(got, want))
+            neg = all(abs(g + w) <= tol for g, w in zip(got, want))
             ctx.fail("dipole_moments: result is not sum_i q_i (r_i - r_0)" + (" (it is its negative)" if neg else ""),
                      c, observed=[float(g) for g in got], expected=[float(w) for w in want],
                      tags={"kind": "dipole", "explained_by": "dipole_sign_cur" if neg else None})
